@@ -228,7 +228,21 @@ pub fn run(args: &[String]) {
                     let server = srvs[s].server.take().unwrap();
                     ops.push(format!("accept {}", s));
                     let _ = ip::take_trace();
+                    // a signal handled by this thread while it waits in accept() or for the first message: `accept` consumes the
+                    // server, so the caller could not retry — the rendezvous must survive it
+                    let sig = rng.below(4);
+                    if sig == 1 || sig == 3 {
+                        ip::EINTR_ACCEPT_NEXT.store(1 + rng.below(2), Ordering::SeqCst);
+                    }
+                    if sig == 2 || sig == 3 {
+                        ip::EINTR_RECVMSG_NEXT.store(1, Ordering::SeqCst);
+                    }
+                    if sig != 0 {
+                        case.tags.push("accept_interrupted".into());
+                    }
                     let acc = server.accept();
+                    ip::EINTR_ACCEPT_NEXT.store(0, Ordering::SeqCst);
+                    ip::EINTR_RECVMSG_NEXT.store(0, Ordering::SeqCst);
                     for (_, e) in ip::take_trace() {
                         if let Ev::Accept { r, cloexec: false, .. } = e {
                             if r >= 0 && !ip::fd_cloexec(r) {
@@ -242,9 +256,13 @@ pub fn run(args: &[String]) {
                             conns[c].rx = Some(rx);
                             conns[c].queued = conns[c].queued.saturating_sub(1);
                         },
-                        Err(_) => {
+                        Err(e) => {
                             res.push("err".into());
                             conns[c].reset = true;
+                            // (accept also fails, legitimately, when the client closed without sending: the model knows)
+                            if sig != 0 && (format!("{:?}", e).contains("Interrupted") || format!("{:?}", e).contains("code: 4")) {
+                                case.fail(format!("accept() interrupted by a signal (EINTR while waiting in accept4 / for the first message) returned {:?}: the server is consumed,                                                    the client's connection and its messages are lost", e));
+                            }
                         },
                     }
                     for b in srvs[s].backlog.drain(..) {
